@@ -127,6 +127,63 @@ def raw_attribute_writes(an: Analysis):
     return out
 
 
+def is_kwarg_lookup(fi: FunctionInfo, deps: Deps, e: ast.AST | None, kwn: str, key: str, _depth: int = 0) -> bool:
+    """e denotes `<kwn>[<key>] if present else MISSING` in one of the equivalent spellings:
+    kwn.get(key, MISSING);  kwn[key] if key in kwn else MISSING;  a local bound by
+    `try: x = kwn[key]  except KeyError: x = MISSING`  or by the if/else statement form."""
+    e = unwrap(e) if e is not None else None
+    if e is None or _depth > 3:
+        return False
+
+    def is_missing_const(x: ast.AST) -> bool:
+        return (dotted(unwrap(x)) or "").rsplit(".", 1)[-1] == "MISSING"
+
+    def is_item(x: ast.AST) -> bool:
+        x = unwrap(x)
+        return isinstance(x, ast.Subscript) and is_name(x.value, kwn) and is_name(x.slice, key)
+
+    def membership(t: ast.AST) -> bool | None:
+        t = unwrap(t)
+        if isinstance(t, ast.Compare) and len(t.ops) == 1 and isinstance(t.ops[0], (ast.In, ast.NotIn)) and is_name(t.left, key) and is_name(t.comparators[0], kwn):
+            return isinstance(t.ops[0], ast.In)
+        return None
+
+    if isinstance(e, ast.Call) and isinstance(e.func, ast.Attribute) and e.func.attr == "get" and is_name(e.func.value, kwn) and len(e.args) == 2 and not e.keywords:
+        return is_name(e.args[0], key) and is_missing_const(e.args[1])
+    if isinstance(e, ast.IfExp):
+        m = membership(e.test)
+        if m is None:
+            return False
+        present, absent = (e.body, e.orelse) if m else (e.orelse, e.body)
+        return is_item(present) and is_missing_const(absent)
+    if isinstance(e, ast.Name):
+        owner = deps.owner(e.id)
+        if owner is not fi:
+            return False
+        defs = [n for k, n in deps.defs(owner, e.id) if k == "value"]
+        stmts = [parent(n) if not isinstance(n, ast.stmt) else n for n in defs]
+        vals = [unwrap(getattr(st, "value", None)) for st in stmts]
+        if len(vals) == 1 and vals[0] is not None:
+            return is_kwarg_lookup(fi, deps, vals[0], kwn, key, _depth + 1)
+        if len(vals) == 2 and all(v is not None for v in vals):
+            item = [st for st, v in zip(stmts, vals) if is_item(v)]
+            miss = [st for st, v in zip(stmts, vals) if is_missing_const(v)]
+            if len(item) == 1 and len(miss) == 1:
+                pi, pm = parent(item[0]), parent(miss[0])
+                # try: x = kw[key]  except KeyError/LookupError: x = MISSING   (nothing else in the try body)
+                if isinstance(pm, ast.ExceptHandler) and isinstance(pi, ast.Try) and pm in pi.handlers and pi.body == [item[0]] and pm.body == [miss[0]] and not pi.orelse and not pi.finalbody:
+                    classes = {(dotted(t) or "").rsplit(".", 1)[-1] for t in ([pm.type] if not isinstance(pm.type, ast.Tuple) else pm.type.elts)} if pm.type is not None else set()
+                    return classes <= {"KeyError", "LookupError"} and bool(classes)
+                # if key in kw: x = kw[key]  else: x = MISSING
+                if isinstance(pi, ast.If) and pi is pm:
+                    m = membership(pi.test)
+                    if m is not None:
+                        present, absent = (pi.body, pi.orelse) if m else (pi.orelse, pi.body)
+                        return present == [item[0]] and absent == [miss[0]]
+        return False
+    return False
+
+
 def conversion(an: Analysis, fi: FunctionInfo, r: ast.Return) -> tuple[str | None, CompShape | None, str]:
     """(immutable constructor name, comprehension, problem) of a validator return value."""
     v = unwrap(r.value)
@@ -256,9 +313,11 @@ def check(an: Analysis) -> None:
         if isinstance(n, ast.Name) and n.id == kwn and isinstance(n.ctx, ast.Load):
             p = parent(n)
             ok = isinstance(p, ast.Attribute) and p.attr == "get" and isinstance(parent(p), ast.Call) and len(parent(p).args) == 2 and "MISSING" in (dotted(parent(p).args[1]) or "")
+            # the item / membership spellings of the same lookup (whether they add up to "own name, else MISSING" is C05.1)
+            ok = ok or (isinstance(p, ast.Subscript) and p.value is n and isinstance(p.ctx, ast.Load)) or (isinstance(p, ast.Compare) and len(p.ops) == 1 and isinstance(p.ops[0], (ast.In, ast.NotIn)) and p.comparators[0] is n)
             ob.inst(init, parent(p) if ok else p)
             if not ok:
-                ob.fail(init, p, "kwargs is used other than kwargs.get(name, MISSING): unknown names are no longer ignored / missing ones no longer defaulted")
+                ob.fail(init, p, "kwargs is used other than looking up one attribute name (kwargs.get(name, MISSING) / kwargs[name] / name in kwargs): unknown names are no longer ignored / missing ones no longer defaulted")
         if isinstance(n, (ast.Raise, ast.Assert)):
             ob.fail(init, n, "State.__init__ raises on its own (unknown names must be ignored; validation errors come from the validators)")
 
